@@ -59,6 +59,9 @@ type ShipConnection struct {
 
 	shutdownOnce sync.Once
 
+	// makes sure the data connection is closed and the closing is reported only once
+	closedOnce sync.Once
+
 	// buffer for SPINE messages that came in before the handshake was completed
 	spineBuffer [][]byte
 
@@ -180,8 +183,7 @@ func (c *ShipConnection) CloseConnection(safe bool, code int, reason string) {
 				<-time.After(500 * time.Millisecond)
 
 				//
-				c.dataWriter.CloseDataConnection(4001, "close")
-				c.infoProvider.HandleConnectionClosed(c, handshakeEnd)
+				c.closeDataConnection(4001, "close", handshakeEnd)
 			}()
 			return
 		}
@@ -190,7 +192,18 @@ func (c *ShipConnection) CloseConnection(safe bool, code int, reason string) {
 		if code != 0 {
 			closeCode = code
 		}
-		c.dataWriter.CloseDataConnection(closeCode, reason)
+		c.closeDataConnection(closeCode, reason, handshakeEnd)
+	})
+}
+
+// close the data connection and report the closed connection
+//
+// all paths ending a connection have to use this, so this happens exactly once
+func (c *ShipConnection) closeDataConnection(code int, reason string, handshakeEnd bool) {
+	c.closedOnce.Do(func() {
+		c.stopHandshakeTimer()
+
+		c.dataWriter.CloseDataConnection(code, reason)
 
 		c.infoProvider.HandleConnectionClosed(c, handshakeEnd)
 	})
